@@ -218,11 +218,61 @@ func e19LenArg(x ssa.Value) ssa.Value {
 }
 
 // frozen exceptions of R-ERR-20: the length relation is a value-level fact of one function
-var err20Exceptions = []struct{ fn, reason string }{
-	{"lib/query.(*View).Fix", "the record slot is resized in place to fieldLen (make / reslice, both arms just above) before it is filled from the fieldLen-long temporary"},
-	{"lib/query.(Record).Merge", "with a pool, the record comes from the join's sync.Pool whose New makes len(left)+len(right) cells — the only records put back are such records"},
-	{"lib/query.OuterJoin", "the padded record comes from the join's sync.Pool whose New makes view.FieldLen()+joinView.FieldLen() cells"},
-	{"lib/query.joinViews", "fieldLen is len(fieldIndices) taken after the last append; the closure that appends (UintPool.Range callback) has returned before the workers start"},
+var err20Exceptions = []struct {
+	fn, reason string
+	side       func(c *Ctx, base ssa.Value, ranged []ssa.Value) (bool, string) // mechanical side condition, re-checked (nil: none)
+}{
+	{"lib/query.(*View).Fix", "the record slot is resized in place to fieldLen (make / reslice, both arms just above) before it is filled from the fieldLen-long temporary", nil},
+	{"lib/query.(Record).Merge", "with a pool, the record comes from the join's sync.Pool whose New makes len(left)+len(right) cells — the only records put back are such records", nil},
+	{"lib/query.OuterJoin", "the padded record comes from the join's sync.Pool whose New makes view.FieldLen()+joinView.FieldLen() cells", nil},
+	{"lib/query.joinViews", "fieldLen is len(fieldIndices) taken after the last append; the closure that appends (UintPool.Range callback) has returned before the workers start", e20MadeWithLenOfRangedVariable},
+}
+
+// e20MadeWithLenOfRangedVariable: the indexed slice is make(T, n) where n is (a
+// once-assigned variable holding) len(V) of the very variable V the index ranges
+// over, and no assignment to V in V's function can follow that len — the length
+// was taken after the last append.
+func e20MadeWithLenOfRangedVariable(c *Ctx, base ssa.Value, ranged []ssa.Value) (bool, string) {
+	ms, ok := e19ThroughLocalStore(base).(*ssa.MakeSlice)
+	if !ok {
+		return false, "the indexed slice is not made where it is filled"
+	}
+	n := ms.Len
+	if ld, isLd := n.(*ssa.UnOp); isLd && ld.Op == token.MUL {
+		cell := e19CellRoot(ld.X)
+		if cell == nil {
+			return false, "the length is not a local variable"
+		}
+		vals, complete := core.StoresTo(cell)
+		if !complete || len(vals) != 1 {
+			return false, "the length variable is assigned more than once"
+		}
+		n = vals[0]
+	}
+	arg := e19LenArg(n)
+	if arg == nil {
+		return false, "the length of the made slice is not len(…) of a slice (it is " + e19ExprLabel(n) + ")"
+	}
+	lenCall := n.(*ssa.Call)
+	al, isLd := arg.(*ssa.UnOp)
+	if !isLd || al.Op != token.MUL || e19CellRoot(al.X) == nil {
+		return false, "the measured slice is not a local variable"
+	}
+	vcell := e19CellRoot(al.X)
+	for _, r := range ranged {
+		rl, ok := r.(*ssa.UnOp)
+		if !ok || rl.Op != token.MUL || e19CellRoot(rl.X) != vcell {
+			return false, "the index ranges over another slice than the one whose length sized the target"
+		}
+	}
+	if valloc, ok := vcell.(*ssa.Alloc); ok {
+		for _, r := range *valloc.Referrers() {
+			if st, ok := r.(*ssa.Store); ok && st.Addr == ssa.Value(valloc) && st.Parent() == lenCall.Parent() && core.Reachable(lenCall, st, nil) {
+				return false, "the ranged variable is assigned again after its length was taken"
+			}
+		}
+	}
+	return true, "the target is made with len of the ranged variable, taken after its last assignment"
 }
 
 func ruleErr20(c *Ctx) {
@@ -294,8 +344,14 @@ func ruleErr20(c *Ctx) {
 				excepted := false
 				for _, ex := range err20Exceptions {
 					if e19OnlyCalledFrom(c, fn, ex.fn) {
-						c.Ok(key, c.Pos(in), "frozen exception: "+ex.reason)
 						excepted = true
+						if ex.side == nil {
+							c.Ok(key, c.Pos(in), "frozen exception: "+ex.reason)
+						} else if ok, why := ex.side(c, base, others); ok {
+							c.Ok(key, c.Pos(in), "frozen exception: "+ex.reason+" — side condition checked: "+why)
+						} else {
+							c.Bad(key, c.Pos(in), "frozen exception ("+ex.reason+") no longer holds: "+why+" — nothing else shows the indexed slice at least as long as the ranged one: index out of range → internal Fatal Error")
+						}
 						break
 					}
 				}
